@@ -208,6 +208,10 @@ impl Storable for AnnotationDataSet {
                     if oldhandle == handle && oldkey != newkey {
                         self.key_data_map.remove(oldkey, handle);
                         self.key_data_map.insert(newkey, handle);
+                        // the new key may already hold later data, and the index is relied upon to be sorted
+                        if let Some(row) = self.key_data_map.data.get_mut(newkey.as_usize()) {
+                            row.sort_unstable();
+                        }
                     }
                 }
             }
